@@ -1,0 +1,112 @@
+//go:build verif
+
+// Contract of the final exponentiation of this curve (comment-only; installed by /verif/gcv gen-contracts).
+//
+// Module layer on the target group: GT is an abelian group written multiplicatively, so an element is represented
+// by its exponent vector over indeterminates (Mul adds, squarings double, Inverse negates) and the maps that act as
+// a fixed power carry a multiplier: Expt is the power by the seed x (ASSUMED: the addition chains of Expt / ExptHalf
+// are not under contract), Frobenius the power by p, Conjugate the power by p^(k/2) (a symbol in the easy part, -1
+// on the cyclotomic subgroup the easy part maps into: ASSUMED algebra of the tower), CyclotomicSquare the square
+// on that subgroup (ASSUMED). The seed is an indeterminate restricted to the residue class the family needs
+// (BN family: any integer seed), p and r are the documented polynomials in it.
+//
+// Proved: (easy) after the first block the value is z^((c - 1)(p^E + 1)) with c the conjugation exponent; (hard)
+// the rest raises to H with H * r(x) = S * PHI(p) as an identity of polynomials in the seed: the function raises to
+// the documented exponent d = S * (p^k - 1)/r, for every seed of the family (the multiplication over the extra
+// arguments _z is excluded by precondition).
+
+package bn254
+
+//@ func FinalExponentiation
+//@ layer module fptower.E12
+//@ option distribute
+//@ requires len(_z) == 0
+//@ ghost x = msym(mexpt, E12)
+//@ ghost mexpt = x
+//@ ghost mfrob = 36*x*x*x*x + 36*x*x*x + 24*x*x + 6*x + 1
+//@ ghost y = 0
+//@ cut after call Mul #2
+//@ + invariant[easy] result == (msym(mconj, E12) - 1) * (mfrob*mfrob + 1) * old(*z)
+//@ + havoc result
+//@ + ghost-post y = result
+//@ + ghost-post mconj = -1
+//@ ghost one = false
+//@ cut after call Equal #1
+//@ + ghost one = callresult
+//@ ensures[unit] one ==> retval == y
+//@ ensures[hard] !one ==> retval * (36*x*x*x*x + 36*x*x*x + 18*x*x + 6*x + 1) == 2*x*(6*x*x + 3*x + 1) * (mfrob*mfrob*mfrob*mfrob - mfrob*mfrob + 1) * y
+//@ modifies nothing
+//@ end
+
+// ---------------- entry points built on the Miller loop and the final exponentiation ----------------
+//
+// MillerLoop / MillerLoopFixedQ and FinalExponentiation are opaque calls here (arbitrary results): what is proved is
+// how the entry points compose them: an error of the Miller loop (size mismatch, empty input) is returned as the
+// error, with no value computed from it; otherwise the value is the final exponentiation of exactly the Miller
+// loop's result (no extra factor), and the check variants compare that value with one.
+
+//@ func Pair
+//@ layer module fptower.E12
+//@ option opaque MillerLoop FinalExponentiation
+//@ ghost mlok = false
+//@ ghost ml = 0
+//@ ghost fein = 0
+//@ ghost feout = 0
+//@ ghost extra = 0
+//@ cut after call MillerLoop #1
+//@ + ghost mlok = isnil(callresult1)
+//@ + ghost ml = callresult0
+//@ cut after call FinalExponentiation #1
+//@ + ghost fein = *callarg0
+//@ + ghost feout = callresult
+//@ + ghost extra = len(callarg1)
+//@ ensures[error] !mlok ==> !isnil(result1)
+//@ ensures[value] mlok ==> isnil(result1) && result0 == feout && fein == ml && extra == 0
+//@ modifies nothing
+//@ end
+
+//@ func PairingCheck
+//@ layer module fptower.E12
+//@ option opaque Pair
+//@ ghost pok = false
+//@ ghost pv = 0
+//@ cut after call Pair #1
+//@ + ghost pok = isnil(callresult1)
+//@ + ghost pv = callresult0
+//@ ensures[error] !pok ==> !result0 && !isnil(result1)
+//@ ensures[value] pok ==> isnil(result1) && result0 == (pv == 0)
+//@ modifies nothing
+//@ end
+
+//@ func PairFixedQ
+//@ layer module fptower.E12
+//@ option opaque MillerLoopFixedQ FinalExponentiation
+//@ ghost mlok = false
+//@ ghost ml = 0
+//@ ghost fein = 0
+//@ ghost feout = 0
+//@ ghost extra = 0
+//@ cut after call MillerLoopFixedQ #1
+//@ + ghost mlok = isnil(callresult1)
+//@ + ghost ml = callresult0
+//@ cut after call FinalExponentiation #1
+//@ + ghost fein = *callarg0
+//@ + ghost feout = callresult
+//@ + ghost extra = len(callarg1)
+//@ ensures[error] !mlok ==> !isnil(result1)
+//@ ensures[value] mlok ==> isnil(result1) && result0 == feout && fein == ml && extra == 0
+//@ modifies nothing
+//@ end
+
+//@ func PairingCheckFixedQ
+//@ layer module fptower.E12
+//@ option opaque PairFixedQ
+//@ ghost pok = false
+//@ ghost pv = 0
+//@ cut after call PairFixedQ #1
+//@ + ghost pok = isnil(callresult1)
+//@ + ghost pv = callresult0
+//@ ensures[error] !pok ==> !result0 && !isnil(result1)
+//@ ensures[value] pok ==> isnil(result1) && result0 == (pv == 0)
+//@ modifies nothing
+//@ end
